@@ -623,6 +623,7 @@ type FuncContract struct {
 	File     string
 	Line     int
 	Reads    []string
+	IsAlso   bool
 }
 
 // Hint: "hint[name] <callee> <expr>" — before every call of <callee> in the body the expression
@@ -631,6 +632,14 @@ type FuncContract struct {
 type Hint struct {
 	Callee string
 	C      *Clause
+}
+
+type GuardDecl struct {
+	Type     string
+	Mutex    string
+	Fields   map[string]bool
+	Contents map[string]bool // fields whose map contents (not the field itself) are guarded
+	Pkg      string
 }
 
 type PureFunc struct {
@@ -661,6 +670,8 @@ type GhostDecl struct {
 
 type ContractSet struct {
 	Ghosts  map[string]*GhostDecl
+	Guards  map[string]*GuardDecl // "pkgpath.Type" -> lock discipline
+	Also    map[string]*FuncContract // second contracts ("also func")
 	Funcs   map[string]*FuncContract // key: pkgpath + "::" + Key
 	Pures   map[string]*PureFunc     // key: name (global namespace; pkg recorded)
 	Lemmas  []*Lemma
@@ -669,7 +680,7 @@ type ContractSet struct {
 }
 
 func NewContractSet() *ContractSet {
-	return &ContractSet{Funcs: map[string]*FuncContract{}, Pures: map[string]*PureFunc{}, TypeInv: map[string]*SExpr{}, Ghosts: map[string]*GhostDecl{}}
+	return &ContractSet{Funcs: map[string]*FuncContract{}, Pures: map[string]*PureFunc{}, TypeInv: map[string]*SExpr{}, Ghosts: map[string]*GhostDecl{}, Guards: map[string]*GuardDecl{}, Also: map[string]*FuncContract{}}
 }
 
 // ParseContractText parses the //@ lines of one file.
@@ -710,6 +721,23 @@ func (cs *ContractSet) ParseContractText(pkgPath, file, text string) error {
 			base = base[:i]
 		}
 		switch base {
+		case "also":
+			// "also func KEY": a second contract of the same function (its own requires / modifies /
+			// ensures), verified as a unit of its own; used at call sites by callers in concurrent mode
+			w2, r2 := splitWord(rest)
+			if w2 != "func" {
+				return fmt.Errorf("%s:%d: expected 'also func'", file, ln+1)
+			}
+			key := strings.TrimSpace(r2)
+			pk := pkgPath
+			if i := strings.Index(key, "::"); i >= 0 {
+				pk = key[:i]
+				key = key[i+2:]
+			}
+			cur = &FuncContract{Key: key, Pkg: pk, Loops: map[int]*LoopContract{}, Opts: map[string]string{}, File: file, Line: ln + 1, IsAlso: true}
+			cs.Also[pk+"::"+key] = cur
+			curLoop = nil
+			pending = nil
 		case "func", "assume":
 			assumed := false
 			if base == "assume" {
@@ -851,6 +879,40 @@ func (cs *ContractSet) ParseContractText(pkgPath, file, text string) error {
 			pf.Pkg = pkgPath
 			pf.Opaque = true
 			cs.Pures[pf.Name] = pf
+			cur = nil
+			curLoop = nil
+		case "guarded-contents":
+			// guarded-contents <Type> <mutex field> <field> ... : the listed fields hold maps that are
+			// assigned by the constructor only; their CONTENTS are read / updated only under the mutex
+			ws := strings.Fields(rest)
+			if len(ws) < 3 {
+				return fmt.Errorf("%s:%d: guarded-contents wants: Type mutex-field field...", file, ln+1)
+			}
+			g := cs.Guards[pkgPath+"."+ws[0]]
+			if g == nil {
+				g = &GuardDecl{Type: ws[0], Mutex: ws[1], Fields: map[string]bool{}, Pkg: pkgPath}
+				cs.Guards[pkgPath+"."+ws[0]] = g
+			}
+			if g.Contents == nil {
+				g.Contents = map[string]bool{}
+			}
+			for _, f := range ws[2:] {
+				g.Contents[f] = true
+			}
+			cur = nil
+			curLoop = nil
+		case "guarded":
+			// guarded <Type> <mutex field> <field> ... : the listed fields of the type are accessed
+			// only while the object's mutex is held (exclusively for writes)
+			ws := strings.Fields(rest)
+			if len(ws) < 3 {
+				return fmt.Errorf("%s:%d: guarded wants: Type mutex-field field...", file, ln+1)
+			}
+			g := &GuardDecl{Type: ws[0], Mutex: ws[1], Fields: map[string]bool{}, Pkg: pkgPath}
+			for _, f := range ws[2:] {
+				g.Fields[f] = true
+			}
+			cs.Guards[pkgPath+"."+ws[0]] = g
 			cur = nil
 			curLoop = nil
 		case "ghost":
